@@ -5,7 +5,7 @@ from props import _rel
 PID = "C03"
 PROPS_FILE = "Props/C03.v"
 PREFIX = "C03"
-KNOWN = {1: "C03-stale-proxy", 2: "C03-gap-skip-ack"}
+KNOWN = {1: "C03-stale-waiter", 2: "C03-gap-skip-ack"}
 RULE = ("a case is one scenario on the simulated real stack (one RELIABLE writer, one RELIABLE reader, KEEP_ALL / "
         "KEEP_LAST 1-3, 1-3 instances, fragment size 64/128/1344): writes interleaved with network faults on the "
         "queued user datagrams, wait_for_acknowledgments calls that are either answered at once or stay parked "
@@ -21,7 +21,7 @@ def corpus():
         # C03-gap-skip-ack: acknowledged although sample 1 was never delivered
         parse_line(PRE % (1344, 1, 1, 1) + " ; w 0 1 10 11 ; w 0 2 10 22 ; w 0 2 10 33 ; R 0 1 rel=1 dur=1 ; netm ; wa 0 ; "
                    "t 0 0 ; dr 0 ; adv 250000000 ; pu ; adv 250000000 ; pu ; adv 250000000 ; pu ; wp ; t 0 0 ; wa 0 ; t 0 0 ; q"),
-        # C03-stale-proxy: the matched reader is deleted / its participant is deleted while a sample is unacknowledged
+        # C03-stale-waiter: the matched reader / its participant is deleted while a caller is parked
         parse_line(PRE % (1344, 1, 0, 0) + " ; R 0 1 rel=1 dur=0 ; netm ; w 0 1 10 1 ; dr 0 ; wa 0 ; delR 0 ; netm ; "
                    "adv 250000000 ; pu ; adv 250000000 ; pu ; adv 250000000 ; pu ; wp ; wa 0 ; q"),
         parse_line(PRE % (1344, 1, 0, 0) + " ; R 0 1 rel=1 dur=0 ; netm ; w 0 1 10 1 ; dr 0 ; wa 0 ; delall 1 ; delP 1 ; netm ; "
@@ -41,14 +41,14 @@ MANIFEST = {
              "the writer holds and that is relevant for it; by induction with the invariant that GAPs only cover "
              "irrelevant samples, highest_acked <= highest_received and nothing relevant below highest_received is "
              "skipped. The statement for every history QoS is refuted by a witness (known finding C03-gap-skip-ack). "
-             "COMPLETION at full strength is refuted by witnesses (known finding C03-stale-proxy: after "
-             "delete_datareader on the peer or deletion of its participant the RTPS reader proxy stays and the wait "
-             "list is only drained by an incoming ACKNACK). The model is tied to the code by differential "
+             "COMPLETION at full strength is refuted by witnesses (known finding C03-stale-waiter: after "
+             "delete_datareader on the peer or deletion of its participant the reader proxy is removed but the wait "
+             "list is only re-evaluated when an ACKNACK is accepted, so a caller parked earlier is never answered). The model is tied to the code by differential "
              "correspondence on a deterministic whole-stack simulation; the oracle (a success is followed by a take "
              "that contains every retained relevant sample; after healing no caller is parked) judges the real "
              "observations."),
     "note": ("Trusted: Coq kernel, hand model RelModel.v (correspondence-checked on every run), simulation harness, "
-             "generator. Axioms: none. Known findings C03-gap-skip-ack, C03-stale-proxy. Bounded time of completion is "
+             "generator. Axioms: none. Known findings C03-gap-skip-ack, C03-stale-waiter. Bounded time of completion is "
              "expressed in healing rounds (one heartbeat period each). One writer/reader pair."),
     "technique": "Coq proof (invariants over all schedules, refutation witnesses) + differential correspondence on a deterministic whole-stack simulation",
 }
